@@ -512,3 +512,9 @@ M('R24-rmatmul-order', 'R24',
 T('R24-rename-param', 'R24',
   [('lp.py', "    def __getitem__(self, item):\n\n        if self.sparray is None:\n            self.sparray = self.sv_array()\n\n        indices = self.sparray[item]\n        linear = sv_to_csr(indices) @ self.linear\n        const = self.const[item]",
     "    def __getitem__(self, key):\n\n        if self.sparray is None:\n            self.sparray = self.sv_array()\n\n        indices = self.sparray[key]\n        linear = sv_to_csr(indices) @ self.linear\n        const = self.const[key]")])
+M('R11-setter-no-curvature-guard', 'R11',
+  [('dro.py', "        if isinstance(obj, (Convex, PiecewiseConvex)) and obj.sign == 1:\n            raise ValueError('Nonconvex objective function.')\n\n        self.obj = obj\n        self.obj_ambiguity = ambset\n        self.sign = - 1",
+    "        self.obj = obj\n        self.obj_ambiguity = ambset\n        self.sign = - 1")], 'dro.Model.maxinf')
+M('R11-setter-wrong-sign', 'R11',
+  [('lp.py', "        if isinstance(obj, Convex) and obj.sign == -1:\n            raise ValueError('Nonconvex objective function.')\n\n        self.obj = obj\n        self.sign = 1",
+    "        if isinstance(obj, Convex) and obj.sign == 1:\n            raise ValueError('Nonconvex objective function.')\n\n        self.obj = obj\n        self.sign = 1")], 'lp.Model.min')
